@@ -194,7 +194,7 @@ class FnView(object):
   def expand(self, expr, depth=3, stop=()):
     """`expr` with every single-definition local replaced by its definition
     (hoisting a sub-expression into a local does not change what is computed)."""
-    import copy
+    from .model import clone
     defs = self.single_defs()
 
     class Sub(ast.NodeTransformer):
@@ -203,9 +203,9 @@ class FnView(object):
 
       def visit_Name(self, node):
         if isinstance(node.ctx, ast.Load) and node.id in defs and self.d > 0 and node.id not in stop:
-          return Sub(self.d - 1).visit(copy.deepcopy(defs[node.id]))
+          return Sub(self.d - 1).visit(clone(defs[node.id]))
         return node
-    return Sub(depth).visit(copy.deepcopy(expr))
+    return Sub(depth).visit(clone(expr))
 
   def deep_text(self, expr, depth=2):
     """source text of `expr` followed by the text of what the helper functions
